@@ -820,6 +820,21 @@ get_store_opcode_for_size (int size)
   return NULL;
 }
 
+static OrcInstruction *
+orc_compiler_append_insn (OrcCompiler *compiler)
+{
+  OrcInstruction *insn;
+
+  if (compiler->n_insns >= ORC_N_INSNS) {
+    orc_compiler_error (compiler, "too many instructions");
+    compiler->result = ORC_COMPILE_RESULT_UNKNOWN_COMPILE;
+    return NULL;
+  }
+  insn = compiler->insns + compiler->n_insns;
+  compiler->n_insns++;
+  return insn;
+}
+
 static void
 orc_compiler_rewrite_insns (OrcCompiler *compiler)
 {
@@ -851,8 +866,8 @@ orc_compiler_rewrite_insns (OrcCompiler *compiler)
             var->vartype == ORC_VAR_TYPE_DEST) {
           OrcInstruction *cinsn;
 
-          cinsn = compiler->insns + compiler->n_insns;
-          compiler->n_insns++;
+          cinsn = orc_compiler_append_insn (compiler);
+          if (cinsn == NULL) return;
 
           cinsn->flags = insn.flags;
           cinsn->flags |= ORC_INSN_FLAG_ADDED;
@@ -888,8 +903,8 @@ orc_compiler_rewrite_insns (OrcCompiler *compiler)
             insn.src_args[i] = loaded;
             continue;
           }
-          cinsn = compiler->insns + compiler->n_insns;
-          compiler->n_insns++;
+          cinsn = orc_compiler_append_insn (compiler);
+          if (cinsn == NULL) return;
 
           cinsn->flags = insn.flags;
           cinsn->flags |= ORC_INSN_FLAG_ADDED;
@@ -908,9 +923,9 @@ orc_compiler_rewrite_insns (OrcCompiler *compiler)
       }
     }
 
-    xinsn = compiler->insns + compiler->n_insns;
+    xinsn = orc_compiler_append_insn (compiler);
+    if (xinsn == NULL) return;
     memcpy (xinsn, &insn, sizeof(OrcInstruction));
-    compiler->n_insns++;
 
     if (!(opcode->flags & ORC_STATIC_OPCODE_STORE)) {
       for(i=0;i<ORC_STATIC_OPCODE_N_DEST;i++){
@@ -922,8 +937,8 @@ orc_compiler_rewrite_insns (OrcCompiler *compiler)
         if (var->vartype == ORC_VAR_TYPE_DEST) {
           OrcInstruction *cinsn;
 
-          cinsn = compiler->insns + compiler->n_insns;
-          compiler->n_insns++;
+          cinsn = orc_compiler_append_insn (compiler);
+          if (cinsn == NULL) return;
 
           cinsn->flags = xinsn->flags;
           cinsn->flags |= ORC_INSN_FLAG_ADDED;
